@@ -70,6 +70,9 @@ def set_strategy(multi, runs=True):
                         nodes += [{"br": 1}, {"t": "x"}]
                     cues.append({"start": a, "end": b, "nodes": nodes, "style": {}, "layout": None})
             langs.append({"code": ["en-US", "fr-FR"][li], "layout": None, "cues": cues[:7]})
+        if nl == 2 and draw(st.integers(0, 4)) == 0:
+            # one of two languages has no captions
+            langs[draw(st.integers(0, 1))]["cues"] = []
         return {"langs": langs, "styles": {}, "layout": None}
     return build()
 
